@@ -1313,10 +1313,13 @@ func (ex *Exec) indexVal(st *State, x, i *Val, pos token.Pos, commaOk bool, spec
 		if mt != nil {
 			et = mt.Elem()
 		}
-		if spec {
-			return []*Val{ex.retype(ev, et), ex.boolVal(present)}
-		}
 		z := ex.zeroSh(ev.Sh, et)
+		if spec {
+			ex.bound++
+			res := ex.iteVal(present, ev, z)
+			ex.bound--
+			return []*Val{ex.retype(res, et), ex.boolVal(present)}
+		}
 		res := ex.iteVal(present, ex.loadedTree(ev), z)
 		return []*Val{ex.retype(res, et), ex.boolVal(present)}
 	case "leaf":
